@@ -212,6 +212,13 @@ def check(ctx):
              and isinstance(n.targets[0], ast.Subscript) and norm_text(n.targets[0].value) == 'collective_matrix']
     if marks:
         pairs = set(marks)
+        for m in list(marks):
+            mm = m.strip('()')
+            if mm.startswith('[') and '],[' in mm:
+                a_, b_ = mm[1:-1].split('],[')
+                for x_, y_ in zip(a_.split(','), b_.split(',')):
+                    pairs.add(f'{x_},{y_}')
+        marks = sorted(pairs)
         sym = any(f'{b},{a}' in pairs or f'({b},{a})' in pairs for a, b in [m.strip('()').split(',') for m in marks if m.count(',') == 1])
         red = [n for n in ast.walk(fi.node) if isinstance(n, ast.Call) and norm_text(n.func).endswith('any') and n.args and 'collective_matrix' in norm_text(n.args[0])]
         both_axes = any('.T' in norm_text(r.args[0]) or '|' in norm_text(r.args[0]) for r in red)
